@@ -67,7 +67,17 @@ func (c c14) Generate(seed uint64, tier string, idx int) *core.Plan {
 	default:
 		n := r.Range(60, 160)
 		for i := 0; i < n; i++ {
-			p.Steps = append(p.Steps, core.Step{Op: "var", A: []int64{int64(r.Intn(20)), int64(r.Intn(1 << 30)), int64(r.Intn(256))}})
+			k := r.Intn(20)
+			if k == 13 || k == 14 {
+				k = 15 // the two big families run once per selected run, below
+			}
+			p.Steps = append(p.Steps, core.Step{Op: "var", A: []int64{int64(k), int64(r.Intn(1 << 30)), int64(r.Intn(256))}})
+		}
+		if idx%8 == 2 {
+			p.Steps = append(p.Steps, core.Step{Op: "var", A: []int64{13, int64(r.Intn(1 << 30)), int64(r.Intn(256))}})
+		}
+		if idx%8 == 3 {
+			p.Steps = append(p.Steps, core.Step{Op: "var", A: []int64{14, int64(r.Intn(1 << 30)), int64(r.Intn(256))}})
 		}
 	}
 	return p
@@ -253,6 +263,25 @@ func (c c14) Execute(p *core.Plan) *core.Result {
 				}
 				verdict("honest", k2[32:], m2, s2, si)
 				verdict("other-key", pub, m2, s2, si)
+			case 13: // small-order A x (canonical and non-canonical) small-order R x S = 0, several messages
+				encs := smallOrderEncodings()
+				for _, a := range encs {
+					for _, rr := range encs {
+						for mi := 0; mi < 3; mi++ {
+							z := append(append([]byte(nil), rr...), make([]byte, 32)...)
+							verdict("small-order-A-R-pairs/S=0", a, []byte{byte(mi), byte(st.Arg(2, 0))}, z, si)
+						}
+					}
+				}
+			case 14: // tiny S: A = identity, R = [s]B, S = s is valid; S = s + L must be refused
+				ident := core.Unhex(smallOrder[0])
+				for sv := int64(0); sv < 40; sv++ {
+					R := ref.EdScalarMult(big.NewInt(sv), ref.EdBase()).Encode()
+					okSig := append(append([]byte(nil), R...), intLE(big.NewInt(sv), 32)...)
+					verdict("tiny-S/canonical", ident, msg, okSig, si)
+					bad := append(append([]byte(nil), R...), intLE(new(big.Int).Add(big.NewInt(sv), ref.EdL), 32)...)
+					verdict("tiny-S/S+L", ident, msg, bad, si)
+				}
 			case 11: // R replaced by a random valid point encoding / random bytes
 				copy(sig[:32], x.Bytes(32))
 				verdict("R-random", pub, msg, sig, si)
@@ -351,10 +380,10 @@ func (c c15) Generate(seed uint64, tier string, idx int) *core.Plan {
 	for i := 0; i < n; i++ {
 		p.Steps = append(p.Steps, core.Step{Op: "pipe", A: []int64{
 			int64(r.Intn(1 << 30)),
-			int64(r.Pick([]int{0, 0, 1, 13, 32, 64})), // context length
-			int64(r.Pick([]int{0, 1, 32, 100, 200})),  // message length
-			int64(r.Intn(2)),                          // blinder order
-			int64(r.Intn(4)),                          // corruption: 0 none, 1 blind bit, 2 context bit, 3 context extended
+			int64(r.Pick([]int{0, 0, 1, 13, 32, 64, 94, 95, 96, 97, 111, 112, 127, 128, 129, 200, 300, 1000})), // context length
+			int64(r.Pick([]int{0, 1, 32, 100, 200})),                                                           // message length
+			int64(r.Intn(2)),                                                                                   // blinder order
+			int64(r.Intn(4)),                                                                                   // corruption: 0 none, 1 blind bit, 2 context bit, 3 context extended
 			int64(r.Intn(1 << 20)),
 			int64(r.Intn(4)), // blind class: 0 random, 1 all zero, 2 all ones, 3 small
 		}})
@@ -507,4 +536,26 @@ func (c c15) Execute(p *core.Plan) *core.Result {
 	res.Sample = map[string]any{"pipelines": len(p.Steps), "first": firstStep(p)}
 	_ = sha512.Size
 	return res
+}
+
+// smallOrderEncodings: the eight canonical encodings plus the non-canonical encodings of the
+// small-order points that have them (y = 0 or 1 re-encoded as y + p, with either sign bit; x = 0
+// points with the sign bit set).
+func smallOrderEncodings() [][]byte {
+	var out [][]byte
+	for _, so := range smallOrder {
+		out = append(out, core.Unhex(so))
+	}
+	p255 := new(big.Int).Sub(new(big.Int).Lsh(big.NewInt(1), 255), big.NewInt(19))
+	for _, y := range []int64{0, 1} {
+		for _, sign := range []byte{0, 0x80} {
+			e := intLE(new(big.Int).Add(p255, big.NewInt(y)), 32)
+			e[31] |= sign
+			out = append(out, e)
+		}
+	}
+	for _, so := range []string{"0100000000000000000000000000000000000000000000000000000000000080", "ecffffffffffffffffffffffffffffffffffffffffffffffffffffffffffffff"} {
+		out = append(out, core.Unhex(so))
+	}
+	return out
 }
